@@ -112,7 +112,7 @@ Proof. constructor; try reflexivity. repeat constructor. Qed.
 Example ex_serialisable : exists bs, write_pose ex_wp = Ok bs /\ bs <> [].
 Proof. destruct (write_pose ex_wp) as [bs|e] eqn:E; [|vm_compute in E; discriminate]. exists bs. split; [reflexivity|]. vm_compute in E. injection E as <-. discriminate. Qed.
 
-(* ---- progress is not vacuous: the bounding box of a 3-D pose (F11, as repaired) ---- *)
+(* ---- progress is not vacuous: the bounding box of a 3-D pose (the case of F11) ---- *)
 Definition ex3_hdr : header := [ {| c_name := nA; c_points := [pa0; pa1]; c_fmt := 4 |}; {| c_name := nB; c_points := [pb0]; c_fmt := 4 |} ].
 Definition ex3_st : state := Eval vm_compute in match start_state ex3_hdr 2 1 3 3 [false; true; true;  false; false; false] with Ok s => s | Err _ => dummy end.
 Example bbox_3d_ok : Inv ex3_st /\ s_be ex3_st = Np /\ expects_ok_np ex3_st BBox = true
